@@ -34,7 +34,7 @@ TIERS = {
     "quick": {"shards": 8, "budget_s": 45},
     "thorough": {"shards": 16, "budget_s": 540},
 }
-MIN_EVENTS = {"quick": 100, "thorough": 1500}
+MIN_EVENTS = {"quick": 1000, "thorough": 1500}
 DECIDING = {"simulate", "stability"}
 RULE = (
     "families L (linear: AR / forward-looking / random-walk equations with random couplings, lags<=3, leads<=2, optional "
@@ -542,7 +542,7 @@ def replay(c, case):
 def shard(c):
     install()
     rng = c.rng
-    n = c.scale(110, 3000)
+    n = c.scale(450, 3000)
     for i in range(n):
         if c.out_of_time():
             break
